@@ -515,9 +515,14 @@ def _run(pid, tier, seed):
 
     def worker(chunk):
         st = Stats()
+        from .core import time_limit, OperationTimeout
         for it in chunk:
             try:
-                work_item(pid, it, st)
+                with time_limit(300):
+                    work_item(pid, it, st)
+            except (OperationTimeout, MemoryError) as ex:
+                st.violation(term_case(it[0], it[1], it[2], "timeout",
+                                       f"simplification of this start term did not finish ({type(ex).__name__}: {ex})", None))
             except Exception as ex:  # noqa: BLE001
                 from .core import raised_in_library
                 if not raised_in_library(ex):
